@@ -14,7 +14,7 @@ use crate::peers::{Act, HttpPeer, Script, Seen};
 use crate::runner::{violation, RunCtx, RunReport, Stats, Verdict};
 use crate::tlspeer::{self, ConnectProxy, ProxyLog, TlsLog, TlsPeer};
 
-pub const CELLS: u64 = 4 * 2 * 2 * 2 * 4 * 3 * 5;
+pub const CELLS: u64 = 4 * 2 * 2 * 2 * 4 * 3 * 7;
 
 #[derive(Clone, Copy, Debug, PartialEq, Eq)]
 enum Chain {
@@ -43,6 +43,12 @@ enum Place {
     /// hostname flag is only touched when the cell waives the name check (so a side effect of the first
     /// call is never papered over by an explicit `false`)
     Toggle,
+    /// a sibling request carries the flags and the root and is *sent* first (it completes or fails its own
+    /// handshake with the same peer); the request under test is strict
+    SiblingSent,
+    /// the other way round: a strict sibling of the same session is sent first, then the request under test
+    /// with the flags and the root set on it
+    AfterStrictSibling,
 }
 
 const OTHER_CA_PEM: &str = include_str!("../../../certs/otherca.pem");
@@ -93,7 +99,7 @@ pub fn scenario(g: &mut G, ctx: &RunCtx) -> RunReport {
     let root = [Root::None, Root::Ours, Root::OtherAfterDecoy, Root::Presented][take(4) as usize];
     let root_added = root != Root::None;
     let route = [Route::Direct, Route::ViaConnect, Route::HttpsProxy][take(3) as usize];
-    let place = [Place::Session, Place::Request, Place::Sibling, Place::Override, Place::Toggle][take(5) as usize];
+    let place = [Place::Session, Place::Request, Place::Sibling, Place::Override, Place::Toggle, Place::SiblingSent, Place::AfterStrictSibling][take(7) as usize];
     let fixture = format!(
         "{}{}",
         match chain {
@@ -105,7 +111,7 @@ pub fn scenario(g: &mut G, ctx: &RunCtx) -> RunReport {
         if name_matches { "" } else { "-wrongname" }
     );
     // effective settings of the request under test
-    let (eff_certs, eff_hosts, eff_root) = if place == Place::Sibling { (false, false, false) } else { (accept_certs, accept_hosts, root_added) };
+    let (eff_certs, eff_hosts, eff_root) = if place == Place::Sibling || place == Place::SiblingSent { (false, false, false) } else { (accept_certs, accept_hosts, root_added) };
     // the unrelated CA is the issuer of the "unknown issuer" fixtures: adding it makes exactly those chains valid
     let chain_ok = eff_root && ((chain == Chain::ToAddedRoot && root == Root::Ours) || (chain == Chain::UnknownIssuer && root == Root::OtherAfterDecoy));
     let want_ok = eff_certs || (chain_ok && (name_matches || eff_hosts));
@@ -177,6 +183,7 @@ pub fn scenario(g: &mut G, ctx: &RunCtx) -> RunReport {
         Route::Direct | Route::ViaConnect => "https://secure.test/private",
         Route::HttpsProxy => "http://plain.test/private",
     };
+    let tls_log_in = tls_log.clone();
     let out = sim.run(|| {
         let mut session = attohttpc::Session::new();
         let mut pb = attohttpc::ProxySettings::builder();
@@ -203,7 +210,7 @@ pub fn scenario(g: &mut G, ctx: &RunCtx) -> RunReport {
             decoy_ok = other.get("https://a.test/decoy").send().map(|r| r.status().as_u16() == 200).unwrap_or(false);
         }
         if !decoy_ok {
-            return Err("decoy-session-failed".to_string());
+            return (Err("decoy-session-failed".to_string()), 0);
         }
         if place == Place::Override {
             session.danger_accept_invalid_certs(true);
@@ -234,14 +241,26 @@ pub fn scenario(g: &mut G, ctx: &RunCtx) -> RunReport {
             }
             let _prepared = sib.prepare();
         }
+        if place == Place::SiblingSent {
+            let mut sib = session.get(url).danger_accept_invalid_certs(accept_certs).danger_accept_invalid_hostnames(accept_hosts);
+            if root_added {
+                sib = sib.add_root_certificate(my_root());
+            }
+            let _ = sib.send().map(|r| r.bytes());
+        }
+        if place == Place::AfterStrictSibling {
+            let _ = session.get(url).send().map(|r| r.bytes());
+        }
+        // TLS sessions the peer has seen before the request under test
+        let sessions_before = tls_log_in.lock().unwrap().sessions.len();
         let mut rb = session.get(url).header("X-Marker", "request-under-test");
-        if place == Place::Request || place == Place::Override {
+        if place == Place::Request || place == Place::Override || place == Place::AfterStrictSibling {
             rb = rb.danger_accept_invalid_certs(accept_certs).danger_accept_invalid_hostnames(accept_hosts);
             if root_added {
                 rb = rb.add_root_certificate(my_root());
             }
         }
-        match rb.send() {
+        let res = match rb.send() {
             Ok(r) => {
                 let st = r.status().as_u16();
                 match r.bytes() {
@@ -250,13 +269,19 @@ pub fn scenario(g: &mut G, ctx: &RunCtx) -> RunReport {
                 }
             }
             Err(e) => Err(err_kind(&e)),
-        }
+        };
+        (res, sessions_before)
     });
     let mut stats = Stats::default();
     stats.absorb(&out.history);
-    let plaintext_at_peer: usize = tls_log.lock().unwrap().sessions.iter().map(|s| s.plaintext_in).sum();
+    let sessions_before = match &out.result {
+        Some(Ok((_, n))) => *n,
+        _ => 0,
+    };
+    let plaintext_at_peer: usize = tls_log.lock().unwrap().sessions.iter().skip(sessions_before).map(|s| s.plaintext_in).sum();
+    let result: Option<Result<Result<(u16, Vec<u8>), String>, String>> = out.result.as_ref().map(|r| r.as_ref().map(|(res, _)| res.clone()).map_err(|e| e.clone()));
     let tag = format!("{:?}:{:?}:name={}:certs={}:hosts={}:root={:?}:{:?}", route, chain, name_matches, accept_certs, accept_hosts, root, place);
-    let verdict = match &out.result {
+    let verdict = match &result {
         None => violation("hang", "torn down"),
         Some(Err(m)) => violation("panic", m.clone()),
         Some(Ok(_)) if undecided => Verdict::Pass,
